@@ -239,7 +239,8 @@ def _real_worker(case):
         out["pars"] = sorted([k, num(v)] for k, v in lm.get_parameter_values().items())
     except Exception as e:  # noqa: BLE001
         out["pars"] = _exc(e)
-    rhs, sums, base_rhs, prod = [], [], [], []
+    rhs, sums, base_rhs, prod, fluxes, posflux = [], [], [], [], [], []
+    maps_ = dict((k, v) for k, v in case["maps"])
     lv = lv_of(case)
     for st in case.get("states", []):
         state = {k: fexpr.to_float(Fraction(v)) for k, v in st}
@@ -263,6 +264,26 @@ def _real_worker(case):
             base_rhs.append({"ok": [[x, num(br[x])] for x, _ in case["base"]["vars"]]})
         except Exception as e:  # noqa: BLE001
             base_rhs.append(_exc(e))
+        # base fluxes at the totals; label flux per position from the real labelled model's fluxes
+        try:
+            bf = base.get_fluxes(tot, 0.0)
+            fluxes.append({"ok": [[k, num(bf[k])] for k, _ in case["base"]["rxns"]]})
+        except Exception as e:  # noqa: BLE001
+            fluxes.append(_exc(e))
+        try:
+            lf = lm.get_fluxes(state, 0.0)
+            pf = []
+            for k, r0 in case["base"]["rxns"]:
+                if k not in maps_:
+                    continue
+                grp = [(n, Fraction(float(lf[n]))) for n in lf.index if n.startswith(k + "__")]
+                s_, p_ = unpack(r0["st"])
+                N = max(sum(lv.get(c, 0) for c in s_), sum(lv.get(c, 0) for c in p_))
+                for pos in range(N):
+                    pf.append([k, pos, num(fexpr.to_float(sum((v for n, v in grp if n[len(k) + 2:][pos:pos + 1] == "1"), Fraction(0))))])
+            posflux.append({"ok": pf})
+        except Exception as e:  # noqa: BLE001
+            posflux.append(_exc(e))
         # is the base rate law the product of its arguments at the totals (the `MassAction` premise)
         try:
             import math
@@ -274,6 +295,7 @@ def _real_worker(case):
         except Exception as e:  # noqa: BLE001
             prod.append(_exc(e))
     out["rhs"], out["sums"], out["base_rhs"], out["prod"] = rhs, sums, base_rhs, prod
+    out["fluxes"], out["posflux"] = fluxes, posflux
     return out
 
 
@@ -297,9 +319,12 @@ def real_dims(case, base):
             except IndexError:
                 front = ["IndexError"]
             out.append([name, ns, np_, L._get_external_labels(total_product_labels=np_, total_substrate_labels=ns), front])
+        # net coefficient of every base variable in every base reaction
+        net = [[name, x, str(int(rxn.stoichiometry.get(x, 0)))]
+               for name, rxn in base.get_raw_reactions().items() for x, _ in case["base"]["vars"]]
     except Exception as e:  # noqa: BLE001
         return _exc(e)
-    return {"ok": out}
+    return {"ok": out, "net": net}
 
 
 # --------------------------------------------------------------------------- oracle (declarative)
@@ -543,7 +568,7 @@ def model_request(case):
 def canon_Q(m):
     return {"queries": [({"ok": q["ok"]} if "ok" in q else {"err": [q["err"][0]]}) for q in m.get("queries", [])],
             "isos": {"ok": m.get("isos", [])},
-            "dims": {"ok": [list(d) for d in m.get("dims", [])]}}
+            "dims": {"ok": [list(d) for d in m.get("dims", [])], "net": [list(d) for d in m.get("net", [])]}}
 
 
 def canon_M(m):
@@ -563,6 +588,8 @@ def canon_M(m):
         "rhs": [{"ok": sorted(r)} for r in o["rhs"]],
         "sums": [{"ok": s} for s in o["sums"]],
         "base_rhs": [{"ok": s} for s in o["base_rhs"]],
+        "fluxes": [{"ok": s} for s in o["fluxes"]],
+        "posflux": [{"ok": [list(x) for x in s]} for s in o["posflux"]],
         "prod": [{"ok": [list(x) for x in s]} for s in o["prod"]],
     }
 
@@ -655,6 +682,10 @@ def judge_case(ctx, case, R, M):
             # the right-hand side of the dynamics theorems (`baseRhsOf` at `totalsEnv`) is the real base model's RHS
             ctx.judge(one, R["base_rhs"][i], R["base_rhs"][i], None if M is None else M["base_rhs"][i],
                       what="base derivative at the totals: real base model vs the model's baseRhsOf")
+            ctx.judge(one, R["fluxes"][i], R["fluxes"][i], None if M is None else M["fluxes"][i],
+                      what="base fluxes at the totals: real base model vs the model's fluxAtTotals")
+            ctx.judge(one, R["posflux"][i], R["posflux"][i], None if M is None else M["posflux"][i],
+                      what="label flux per padded position (sum of isotopomer rates labelled there): real labelled model vs model")
             ctx.judge(one, R["prod"][i], R["prod"][i], None if M is None else M["prod"][i],
                       what="rate law = product of its arguments at the totals (MassAction premise): real vs model")
             ma = set(case.get("ma", []))
